@@ -181,6 +181,21 @@ def region_check(ctx, tag, loc, N, M, ns, snaps, seed):
         for sl in slots:
             if len({p[4][sl] for p in pieces}) > 1:
                 moves[sl].append((ua, pos, pieces))
+    # rounding robustness: in floating point the cumulative sum of normalised volumes may fall a few ulp short of 1 while a variate lies
+    # above it.  The same region with the stand-ins scaled by 1 - 2^-20 (volumes summing to just under one) and a variate between that sum
+    # and 1: the function must still return an input pair for every slot (the search is closed at 1 or the index is clamped)
+    if N == 1 and variates:
+        scaled = {a_: v_ * (1.0 - 2.0 ** -20) for a_, v_ in model.items()}
+        ctag = f"{tag}:variate above the rounded sum of the volumes"
+        try:
+            _, outr = interpret(ctx, A, fr, ns, seed, scaled, {pos_: 1.0 - 2.0 ** -22 for pos_ in variates.values()})
+            bad = [why for sl in slots for g, why in [slot_pick(outr, A, fr, *sl)] if g is None]
+            res.append(("C15.rounding", ctag, not bad, "; ".join(bad[:2])))
+        except RaiseSig as r:
+            res.append(("C15.rounding", ctag, False, f"raises {r.exc.typename} (line {getattr(r.exc.node, 'lineno', '?')}): a variate above the rounded "
+                        "cumulative sum is searched past the last grain; the cumulative distribution is not closed at 1"))
+        except (Inconclusive, Unsupported, alg.AlgError) as ex:
+            res.append(("C15.rounding", ctag, "inconclusive", str(ex)[:140]))
     # one obligation per slot
     for sl in slots:
         i, k = sl
@@ -235,13 +250,15 @@ def run(ctx):
         "drawn with probability equal to its volume, independently of HOW the function sorts, accumulates or searches.  Plus: one generator "
         "seeded with the seed argument is the only randomness and one variate is drawn per output slot with default options; two calls with "
         "the same seed select identically; output shapes; malformed shapes raise ValueError before the generator exists.  Not decided: the "
-        "quality of NumPy's generator; floating-point rounding of the cumulative sums; regions of the simplex other than the order types listed.")
+        "quality of NumPy's generator; floating-point rounding beyond the one case of C15.rounding (a cumulative sum short of 1); regions of the simplex other than the order types listed.")
     ctx.trusted += ["numpy: argsort/sort order a row, searchsorted returns the insertion position, fancy indexing selects cells",
                     "Generator.random draws independent uniform variates from [0, 1)"]
     ctx.assume("within a region every logged decision keeps its outcome (they are order comparisons between volumes, partial sums and variates)")
     ctx.rule("C15.pairing", "every output slot (i, k) holds the orientation AND the volume of one and the same input grain of snapshot i, for every interval of every variate")
     ctx.rule("C15.distribution", "per output slot: the variate intervals tile [0, 1) and the total length selecting grain g equals volume f_g on the simplex "
                                  "(polynomial identity), in every region")
+    ctx.rule("C15.rounding", "with volumes summing to just under one (rounding of the cumulative sum) and a variate between that sum and 1, every slot still holds an input "
+                             "pair: the cumulative distribution is closed at 1, or the index is clamped")
     ctx.rule("C15.rng", "the generator is default_rng(seed=<seed argument>), it is the only randomness, one variate per output slot is drawn with default options")
     ctx.rule("C15.shapes", "output shapes (N, n_samples, 3, 3) and (N, n_samples); n_samples defaults to M")
     ctx.rule("C15.validate", "inconsistent input shapes raise ValueError before the generator is created")
@@ -293,6 +310,7 @@ def run(ctx):
     ctx.floor("C15.pairing", 60)
     ctx.floor("C15.distribution", 60)
     ctx.floor("C15.rng", 30)
+    ctx.floor("C15.rounding", 20)
     # reproducibility: a second call with the same arguments (after an unrelated call in between) selects with the same draws
     ctx.rule("C15.reproducible", "two calls with the same seed and inputs in one process return the same selections (the generator is created afresh per call, "
                                  "so the k-th call does not continue the stream of an earlier one)")
